@@ -671,6 +671,11 @@ def one_case(col, rng, tracer, width):
             continue
         msg = rendered.value
         ok = check_message(col, msg, root, target, desc, None, width)
+        if ok is True and rng.random() < 0.15:
+            w2 = width + rng.choice([-17, -6, 9, 31])
+            msg2 = rerender(col, got.exc, msg, w2)
+            if msg2 is not None:
+                check_message(col, msg2, root, target, '%s rendered with width=%d (imported with %d)' % (desc, w2, width), None, w2)
         if ok is True and col.want_sample('trace-%s' % kind):
             col.sample({'spec': desc, 'width': width, 'failing_spec': short(fmt_full(anc[-1].spec), 80), 'ancestors': len(anc),
                         'message': msg[:1500]}, 'trace-%s' % kind)
@@ -710,17 +715,40 @@ def reentrant_cases(col, tracer, width):
             col.violation('C05/reentrant-outer-specs-missing', 'outer specs not listed:\n%s' % msg, {'message': msg})
 
 
+def rerender(col, exc, msg, width2):
+    """the same error rendered for another width through the width parameter of the trace renderer (the width is otherwise fixed
+    when the library is imported); None when the pieces it needs are not there"""
+    fn = getattr(gcore, 'format_target_spec_trace', None)
+    scope = getattr(exc, '_scope', None)
+    wrapped = getattr(exc, '_GlomError__wrapped', None)
+    if fn is None or scope is None or wrapped is None:
+        col.count('rerender_unavailable')
+        return None
+    try:
+        text_default = fn(scope, wrapped)
+        if text_default not in msg:
+            col.count('rerender_unavailable')
+            return None
+        text2 = fn(scope, wrapped, width=width2)
+    except TypeError:
+        col.count('rerender_unavailable')
+        return None
+    col.count('messages_rendered_for_another_width')
+    return msg.replace(text_default, text2, 1)
+
+
 def exact_fit_boundaries(col, tracer, width):
     """values whose repr is a few columns shorter than, exactly as long as, and a few columns longer than the room on their line, as
-    root target, as the target of a nested step, as failing spec, at depth 0 and inside branches (one column less room per depth)"""
-    def run_one(desc, target, spec):
+    root target, as the target of a nested step, as failing spec, at depth 0 and inside branches (one column less room per depth);
+    at the width the library was imported with and, through the renderer's width parameter, at a narrower and a wider one"""
+    def run_one(desc, target, spec, w):
         tracer.reset()
         got = call(G, target, spec)
         col.count('evaluations')
         if got.ok or not isinstance(got.exc, GlomError):
             col.count('no_error_or_not_glomerror')
             return
-        col.case(('exact-fit', desc, width), True)
+        col.case(('exact-fit', desc, width, w), True)
         col.count('error_messages_checked')
         col.count('boundary_messages_checked')
         try:
@@ -728,16 +756,73 @@ def exact_fit_boundaries(col, tracer, width):
         except Exception as e:
             col.violation('C05/str-of-error-raises', '%s: str() of the error raised %r' % (desc, e), None)
             return
-        check_message(col, msg, tracer.roots()[-1], target, desc, ('exact-fit', desc), width)
-    for n in range(width - 24, width + 3):
-        s_ = 'x' * n
-        run_one('root-target-str:%d' % (n - width), s_, 'nope')
-        run_one('root-target-list:%d' % (n - width), [s_], 'nope')
-        run_one('nested-target:%d' % (n - width), {'k': s_}, ('k', 'nope'))
-        run_one('failing-spec:%d' % (n - width), {'k': 1}, 'n' * n)
-        run_one('in-branch-depth-1:%d' % (n - width), {'k': s_}, Coalesce(('k', 'nope'), 'm' * n))
-        run_one('in-branch-depth-2:%d' % (n - width), {'k': s_}, ('k', Coalesce(Or('q' * n, T['nope']), (T, 'zz'))))
-        run_one('unicode:%d' % (n - width), '\u00e9' * n, 'nope')
+        if w != width:
+            msg = rerender(col, got.exc, msg, w)
+            if msg is None:
+                return
+            desc = '%s rendered with width=%d (imported with %d)' % (desc, w, width)
+        check_message(col, msg, tracer.roots()[-1], target, desc, ('exact-fit', desc), w)
+    for w in (width, width - 17, width + 31):
+        for n in range(w - 24, w + 3):
+            s_ = 'x' * n
+            run_one('root-target-str:%d' % (n - w), s_, 'nope', w)
+            run_one('root-target-list:%d' % (n - w), [s_], 'nope', w)
+            run_one('nested-target:%d' % (n - w), {'k': s_}, ('k', 'nope'), w)
+            run_one('failing-spec:%d' % (n - w), {'k': 1}, 'n' * n, w)
+            run_one('in-branch-depth-1:%d' % (n - w), {'k': s_}, Coalesce(('k', 'nope'), 'm' * n), w)
+            run_one('in-branch-depth-2:%d' % (n - w), {'k': s_}, ('k', Coalesce(Or('q' * n, T['nope']), (T, 'zz'))), w)
+            run_one('unicode:%d' % (n - w), '\u00e9' * n, 'nope', w)
+
+
+EQ_FAMILIES = [[1, True, 1.0], [0, False, 0.0, -0.0], [2, 2.0], ['x', b'x'], [(1,), (True,), (1.0,)], [10 ** 3, 1e3]]
+
+
+def equal_values_of_different_types(col, tracer, width):
+    """values that compare equal but are different objects with different reprs (1 / True / 1.0, 0 / False / -0.0, 'x' / b'x') as
+    root target of successive calls, as targets of sibling branches of one trace, as consecutive targets of a chain, and as literal
+    specs: every line shows the value that was really there"""
+    for fam in EQ_FAMILIES:
+        for order in (fam, fam[::-1]):
+            # successive calls, same spec object
+            spec = ('nope',)
+            nested = ('k', T.nope)
+            for v in order:
+                for desc, target, sp in (('root', v, spec), ('nested', {'k': v}, nested), ('in-list', [v], (T[0], T.nope))):
+                    tracer.reset()
+                    got = call(G, target, sp)
+                    col.count('evaluations')
+                    if got.ok or not isinstance(got.exc, GlomError):
+                        col.count('no_error_or_not_glomerror')
+                        continue
+                    col.case(('equal-values', desc, repr(v), width), True)
+                    col.count('error_messages_checked')
+                    col.count('equal_value_messages_checked')
+                    check_message(col, str(got.exc), tracer.roots()[-1], target, 'glom(%r, %r) after calls with equal targets of other types' % (target, sp),
+                                  ('equal-values', desc), width)
+            # sibling branches of ONE trace, each stepping to one member of the family and failing there
+            keys = ['k%d' % i for i in range(len(order))]
+            target = dict(zip(keys, order))
+            for mk in (lambda alts: Coalesce(*alts), lambda alts: Match(Or(*[Auto(a) for a in alts]))):
+                sp = mk([(k, T.nope) for k in keys])
+                tracer.reset()
+                got = call(G, target, sp)
+                col.count('evaluations')
+                if got.ok or not isinstance(got.exc, GlomError):
+                    col.count('no_error_or_not_glomerror')
+                    continue
+                col.case(('equal-values', 'branches', type(sp).__name__, repr(order), width), True)
+                col.count('error_messages_checked')
+                col.count('equal_value_messages_checked')
+                msg = str(got.exc)
+                check_message(col, msg, tracer.roots()[-1], target, short(sp), ('equal-values', 'branches'), width)
+                _, tokens, _ = parse_trace(msg)
+                shown = [ln.text for ln in tokens if ln.kind == 'Target' and ln.depth >= 1]
+                want = [fmt_full(v) for v in order]
+                # every branch shows, after its first step, the value it stepped to (in order; other Target lines may occur)
+                it = iter(shown)
+                if not all(any(x == w for x in it) for w in want):
+                    col.violation('C05/branch-shows-an-equal-value-of-another-type', '%s on %r: the branches stepped to %s in turn, their Target lines are %s\n%s'
+                                  % (short(sp), target, want, shown, msg), {'message': msg})
 
 
 def child_main(width, seed, shard, nshards, tier):
@@ -754,6 +839,7 @@ def child_main(width, seed, shard, nshards, tier):
         reentrant_cases(col, tracer, width)
         if shard == 0:
             exact_fit_boundaries(col, tracer, width)
+        equal_values_of_different_types(col, tracer, width)
         n = 400 if tier == 'quick' else 2500
         for _ in range(n):
             one_case(col, rng, tracer, width)
